@@ -1,4 +1,731 @@
 package main
 
-func checkCmd(args []string) int  { return 2 }
-func replayCmd(args []string) int { return 2 }
+import (
+	"encoding/json"
+	"flag"
+	"fmt"
+	"os"
+	"os/exec"
+	"path/filepath"
+	"regexp"
+	"sort"
+	"strconv"
+	"strings"
+	"sync"
+	"time"
+
+	"gosym/interp"
+)
+
+func verifRoot() string {
+	if d := os.Getenv("VERIF_ROOT"); d != "" {
+		return d
+	}
+	return filepath.Dir(harnessDir())
+}
+
+type knownFinding struct {
+	Property string            `json:"property"`
+	Harness  string            `json:"harness"`
+	Label    string            `json:"label"`
+	Kind     string            `json:"kind,omitempty"`
+	Where    map[string]string `json:"where,omitempty"`
+	Status   string            `json:"status"` // known | fixed
+	Commit   string            `json:"commit,omitempty"`
+	What     string            `json:"what"`
+}
+
+func loadKnown() []knownFinding {
+	b, err := os.ReadFile(filepath.Join(verifRoot(), "known_findings.json"))
+	if err != nil {
+		return nil
+	}
+	var out []knownFinding
+	if err := json.Unmarshal(b, &out); err != nil {
+		fmt.Fprintln(os.Stderr, "known_findings.json:", err)
+		os.Exit(3)
+	}
+	return out
+}
+
+func (k knownFinding) matches(prop, harness string, f *interp.Failure) bool {
+	if k.Property != prop || k.Harness != harness || k.Label != f.Label {
+		return false
+	}
+	if k.Kind != "" && k.Kind != f.Kind {
+		return false
+	}
+	for lbl, want := range k.Where {
+		ok := false
+		for _, c := range f.Choices {
+			if c.Label == lbl {
+				for _, alt := range strings.Split(want, "|") {
+					if strconv.Itoa(c.Alt) == alt {
+						ok = true
+					}
+				}
+			}
+		}
+		if !ok {
+			return false
+		}
+	}
+	return true
+}
+
+// ---------------------------------------------------------------- replay
+
+type replayInput struct {
+	Kind  string `json:"kind"`
+	Label string `json:"label"`
+	Bits  string `json:"bits,omitempty"`
+	Bytes []int  `json:"bytes,omitempty"`
+	N     int    `json:"n,omitempty"`
+	Alt   int    `json:"alt,omitempty"`
+}
+
+type replayFile struct {
+	Property  string        `json:"property"`
+	Harness   string        `json:"harness"`
+	Package   string        `json:"package"`
+	Kind      string        `json:"kind"`
+	Label     string        `json:"label"`
+	Detail    string        `json:"detail"`
+	Tier      int           `json:"tier"`
+	Inputs    []replayInput `json:"inputs"`
+	Decisions []int         `json:"decisions"`
+	Choices   string        `json:"choices"`
+}
+
+func makeReplay(prop, pkg, harness string, tier int, f *interp.Failure) *replayFile {
+	rf := &replayFile{Property: prop, Harness: harness, Package: pkg, Kind: f.Kind, Label: f.Label, Detail: f.Detail, Tier: tier, Decisions: f.Decisions}
+	m := f.Model
+	if m == nil {
+		m = interp.Model{}
+	}
+	var cs []string
+	for _, c := range f.Choices {
+		cs = append(cs, fmt.Sprintf("%s=%d", c.Label, c.Alt))
+	}
+	rf.Choices = strings.Join(cs, ",")
+	for _, in := range f.Inputs {
+		ri := replayInput{Kind: in.Kind, Label: in.Label}
+		switch in.Kind {
+		case "f64":
+			ri.Bits = strconv.FormatUint(m[in.Vars[0]], 16)
+		case "int":
+			ri.Bits = strconv.FormatInt(int64(m[in.Vars[0]]), 10)
+		case "bool":
+			ri.Bits = strconv.FormatUint(m[in.Vars[0]]&1, 10)
+		case "byte":
+			ri.Bits = strconv.FormatUint(m[in.Vars[0]]&0xff, 10)
+		case "str":
+			ri.Bytes = []int{}
+			for _, v := range in.Vars {
+				ri.Bytes = append(ri.Bytes, int(m[v]&0xff))
+			}
+		case "choose":
+			ri.N, ri.Alt = in.N, in.Alt
+		}
+		rf.Inputs = append(rf.Inputs, ri)
+	}
+	return rf
+}
+
+type replayBuilder struct {
+	mu      sync.Mutex
+	tmp     string
+	bins    map[string]string // pkg|race -> binary
+	errs    map[string]string
+	names   map[string][]string // pkg path -> harness names
+	overlay string
+}
+
+func pkgDir(pkgPath string) string {
+	rel := strings.TrimPrefix(strings.TrimPrefix(pkgPath, "github.com/vedadiyan/genql"), "/")
+	return filepath.Join(repoDir, rel)
+}
+
+func newReplayBuilder(m *interp.Machine) (*replayBuilder, error) {
+	tmp, err := os.MkdirTemp("", "gosym-replay-")
+	if err != nil {
+		return nil, err
+	}
+	rb := &replayBuilder{tmp: tmp, bins: map[string]string{}, errs: map[string]string{}, names: map[string][]string{}}
+	_, real := overlay()
+	repl := map[string]string{}
+	for v, r := range real {
+		repl[v] = r
+	}
+	for _, f := range m.HarnessFuncs("H_") {
+		p := f.Pkg.Pkg.Path()
+		rb.names[p] = append(rb.names[p], f.Name())
+	}
+	for p, names := range rb.names {
+		var b strings.Builder
+		pkgName := "genql"
+		for _, f := range m.HarnessFuncs("H_") {
+			if f.Pkg.Pkg.Path() == p {
+				pkgName = f.Pkg.Pkg.Name()
+			}
+		}
+		fmt.Fprintf(&b, "package %s\n\nimport (\n\t\"os\"\n\t\"testing\"\n\n\tverif \"github.com/vedadiyan/genql/zz_verif\"\n)\n\n", pkgName)
+		b.WriteString("var verifHarnesses = map[string]func(){\n")
+		sort.Strings(names)
+		for _, n := range names {
+			fmt.Fprintf(&b, "\t%q: %s,\n", n, n)
+		}
+		b.WriteString("}\n\nfunc TestVerifReplay(t *testing.T) {\n\tverif.RunReplay(verifHarnesses[os.Getenv(\"VERIF_HARNESS\")])\n}\n")
+		tf := filepath.Join(tmp, strings.ReplaceAll(p, "/", "_")+"_replay_test.go")
+		if err := os.WriteFile(tf, []byte(b.String()), 0o644); err != nil {
+			return nil, err
+		}
+		repl[filepath.Join(pkgDir(p), "zz_verif_replay_test.go")] = tf
+	}
+	ovb, _ := json.Marshal(map[string]any{"Replace": repl})
+	rb.overlay = filepath.Join(tmp, "overlay.json")
+	if err := os.WriteFile(rb.overlay, ovb, 0o644); err != nil {
+		return nil, err
+	}
+	return rb, nil
+}
+
+func (rb *replayBuilder) close() { os.RemoveAll(rb.tmp) }
+
+func goEnv() []string {
+	return append(os.Environ(), "GOFLAGS=-mod=mod", "GOPROXY=off", "GOSUMDB=off", "GOTOOLCHAIN=local")
+}
+
+func (rb *replayBuilder) binary(pkg string, race bool) (string, error) {
+	rb.mu.Lock()
+	defer rb.mu.Unlock()
+	key := pkg
+	if race {
+		key += "|race"
+	}
+	if b, ok := rb.bins[key]; ok {
+		if b == "" {
+			return "", fmt.Errorf("%s", rb.errs[key])
+		}
+		return b, nil
+	}
+	out := filepath.Join(rb.tmp, strings.ReplaceAll(key, "/", "_")+".test")
+	args := []string{"test", "-c", "-vet=off", "-overlay", rb.overlay, "-o", out}
+	if race {
+		args = append(args, "-race")
+	}
+	args = append(args, ".")
+	cmd := exec.Command("go", args...)
+	cmd.Dir = pkgDir(pkg)
+	cmd.Env = goEnv()
+	b, err := cmd.CombinedOutput()
+	if err != nil {
+		rb.bins[key] = ""
+		rb.errs[key] = fmt.Sprintf("native build failed: %v\n%s", err, b)
+		return "", fmt.Errorf("%s", rb.errs[key])
+	}
+	rb.bins[key] = out
+	return out, nil
+}
+
+type replayOutcome struct {
+	Reproduced bool
+	Runs       int
+	Output     string
+	Note       string
+}
+
+var failRe = regexp.MustCompile(`(?m)^VERIF-FAIL (.*)$`)
+
+// runReplay executes the harness natively on the recorded inputs and
+// reports whether the failure shows up.
+func (rb *replayBuilder) runReplay(rf *replayFile, path string) replayOutcome {
+	race := rf.Kind == "race"
+	bin, err := rb.binary(rf.Package, race)
+	if err != nil {
+		return replayOutcome{Note: err.Error()}
+	}
+	repeats := 1
+	switch rf.Kind {
+	case "race", "crash", "deadlock":
+		repeats = 40
+	default:
+		if strings.Contains(rf.Detail, "maporder") || mapOrderDependent(rf) {
+			repeats = 40
+		}
+	}
+	var last string
+	for r := 1; r <= repeats; r++ {
+		cmd := exec.Command(bin, "-test.run", "^TestVerifReplay$", "-test.count=1", "-test.timeout=60s")
+		cmd.Dir = pkgDir(rf.Package)
+		cmd.Env = append(goEnv(), "VERIF_REPLAY="+path, "VERIF_HARNESS="+rf.Harness, "GORACE=halt_on_error=0")
+		done := make(chan struct{})
+		var out []byte
+		go func() { out, _ = cmd.CombinedOutput(); close(done) }()
+		select {
+		case <-done:
+		case <-time.After(90 * time.Second):
+			if cmd.Process != nil {
+				cmd.Process.Kill()
+			}
+			<-done
+			out = append(out, []byte("\nVERIF-TIMEOUT\n")...)
+		}
+		last = string(out)
+		if reproduced(rf, last) {
+			return replayOutcome{Reproduced: true, Runs: r, Output: trim(last, 4000)}
+		}
+		if strings.Contains(last, "VERIF-MISMATCH") || strings.Contains(last, "VERIF-ASSUME-FAILED") {
+			break
+		}
+	}
+	return replayOutcome{Reproduced: false, Runs: repeats, Output: trim(last, 4000)}
+}
+
+func mapOrderDependent(rf *replayFile) bool {
+	return os.Getenv("VERIF_REPLAY_REPEAT") != "" || rf.Kind == "assert"
+}
+
+func trim(s string, n int) string {
+	if len(s) > n {
+		return s[:n/2] + "\n...\n" + s[len(s)-n/2:]
+	}
+	return s
+}
+
+func reproduced(rf *replayFile, out string) bool {
+	switch rf.Kind {
+	case "assert":
+		for _, m := range failRe.FindAllStringSubmatch(out, -1) {
+			if m[1] == rf.Label {
+				return true
+			}
+		}
+		return false
+	case "panic":
+		return strings.Contains(out, "VERIF-PANIC")
+	case "crash":
+		if strings.Contains(rf.Label, "fmt-cycle") {
+			return strings.Contains(out, "stack overflow") || strings.Contains(out, "goroutine stack exceeds")
+		}
+		return !strings.Contains(out, "VERIF-DONE") && (strings.Contains(out, "panic:") || strings.Contains(out, "fatal error")) ||
+			(strings.Contains(out, "panic:") && strings.Contains(out, "goroutine"))
+	case "deadlock":
+		return strings.Contains(out, "all goroutines are asleep") || strings.Contains(out, "VERIF-TIMEOUT") || strings.Contains(out, "test timed out")
+	case "race":
+		return strings.Contains(out, "DATA RACE") || strings.Contains(out, "concurrent map")
+	case "bound":
+		return strings.Contains(out, "stack overflow") || strings.Contains(out, "goroutine stack exceeds") || strings.Contains(out, "VERIF-TIMEOUT") || strings.Contains(out, "test timed out")
+	}
+	return false
+}
+
+// ---------------------------------------------------------------- check
+
+type harnessReport struct {
+	Name         string   `json:"harness"`
+	Paths        int64    `json:"paths"`
+	Nontrivial   int64    `json:"paths_with_solver_decided_branch"`
+	Infeasible   int64    `json:"infeasible_prefixes"`
+	Steps        int64    `json:"ssa_instructions_executed"`
+	Complete     bool     `json:"explored_to_completion"`
+	WallS        float64  `json:"wall_s"`
+	Asserts      int64    `json:"assertions_checked"`
+	QFeas        int64    `json:"solver_feasibility_queries"`
+	QAssert      int64    `json:"solver_assertion_queries"`
+	QCached      int64    `json:"queries_answered_from_cache"`
+	QModel       int64    `json:"queries_answered_by_cached_model"`
+	QUnknown     int64    `json:"solver_unknown"`
+	SolverS      float64  `json:"solver_s"`
+	Decisions    map[string]int64 `json:"decisions_by_kind"`
+	Reached      map[string]int64 `json:"reach_labels"`
+	BoundExceed  []string `json:"bound_exceeded,omitempty"`
+	Unsupported  []string `json:"unsupported_paths,omitempty"`
+	Inconclusive []string `json:"inconclusive,omitempty"`
+	EngineErrors []string `json:"engine_errors,omitempty"`
+	Threads      int      `json:"max_goroutines"`
+}
+
+func checkCmd(args []string) int {
+	fs := flag.NewFlagSet("check", flag.ExitOnError)
+	tierS := fs.String("tier", os.Getenv("VERIF_TIER"), "quick|thorough")
+	workers := fs.Int("workers", 16, "worker goroutines")
+	only := fs.String("only", "", "run only harnesses whose name contains this")
+	var prop string
+	if len(args) > 0 && !strings.HasPrefix(args[0], "-") {
+		prop = args[0]
+		args = args[1:]
+	}
+	fs.Parse(args)
+	if prop == "" && fs.NArg() > 0 {
+		prop = fs.Arg(0)
+	}
+	if prop == "" {
+		fmt.Fprintln(os.Stderr, "usage: gosym check <property> [--tier quick|thorough]")
+		return 2
+	}
+	tier := 0
+	if *tierS == "thorough" {
+		tier = 1
+	} else {
+		*tierS = "quick"
+	}
+	seed, _ := strconv.Atoi(os.Getenv("VERIF_SEED"))
+	t0 := time.Now()
+	m := loadMachine()
+	m.Tier = tier
+	spec, ok := properties[prop]
+	if !ok {
+		fmt.Fprintln(os.Stderr, "unknown property", prop)
+		return 2
+	}
+	known := loadKnown()
+	var harnesses []*hrun
+	for _, f := range m.HarnessFuncs("H_" + prop + "_") {
+		if *only != "" && !strings.Contains(f.Name(), *only) {
+			continue
+		}
+		harnesses = append(harnesses, &hrun{fn: f.Name(), pkg: f.Pkg.Pkg.Path()})
+	}
+	if len(harnesses) == 0 {
+		fmt.Fprintln(os.Stderr, "no harness for", prop)
+		return 3
+	}
+	rb, err := newReplayBuilder(m)
+	if err != nil {
+		fmt.Fprintln(os.Stderr, err)
+		return 3
+	}
+	defer rb.close()
+
+	broken := false
+	violations := 0
+	var knownLines, violLines, mismatchLines []string
+	var reports []harnessReport
+	var samples []any
+	functions := map[string]bool{}
+	intrinsics := map[string]bool{}
+	assumptions := map[string]bool{}
+	var tot interp.Stats
+	var solverS float64
+	replays := 0
+	replayDir := filepath.Join(verifRoot(), "out", "replay", prop)
+	os.RemoveAll(replayDir)
+	os.MkdirAll(replayDir, 0o755)
+	nreplay := 0
+
+	for _, h := range harnesses {
+		fn := m.LookupFunc(h.pkg, h.fn)
+		cfg := interp.Config{Workers: *workers, Solver: solverFromEnv()}
+		b := spec.budget(h.fn, tier)
+		cfg.Budgets = b.Budgets
+		cfg.SolverTimeout = b.SolverTimeoutMs
+		if b.WallS > 0 {
+			cfg.Deadline = time.Now().Add(time.Duration(b.WallS) * time.Second)
+		}
+		res := m.Explore(fn, cfg)
+		s := res.Stats
+		tot.Paths += s.Paths
+		tot.PathsNontriv += s.PathsNontriv
+		tot.QFeas += s.QFeas
+		tot.QAssert += s.QAssert
+		tot.QCached += s.QCached
+		tot.QModelHit += s.QModelHit
+		tot.QUnknown += s.QUnknown
+		tot.AssertsChecked += s.AssertsChecked
+		for k := range s.Decisions {
+			tot.Decisions[k] += s.Decisions[k]
+		}
+		solverS += res.SolverTime.Seconds()
+		for k := range res.Functions {
+			functions[k] = true
+		}
+		for k := range res.Intrinsics {
+			intrinsics[k] = true
+		}
+		for k := range res.Assumptions {
+			assumptions[k] = true
+		}
+		rep := harnessReport{Name: h.fn, Paths: s.Paths, Nontrivial: s.PathsNontriv, Infeasible: s.Infeasible, Steps: s.Steps, Complete: res.Complete,
+			WallS: res.Wall.Seconds(), Asserts: s.AssertsChecked, QFeas: s.QFeas, QAssert: s.QAssert, QCached: s.QCached, QModel: s.QModelHit, QUnknown: s.QUnknown,
+			SolverS: res.SolverTime.Seconds(), Decisions: map[string]int64{}, Reached: res.Reached, BoundExceed: res.BoundExceed, Unsupported: res.Unsupported,
+			Inconclusive: res.Inconclusive, EngineErrors: res.EngineErrors, Threads: res.MaxThreads}
+		for k := interp.DecKind(0); k < interp.DkNumKinds; k++ {
+			if s.Decisions[k] > 0 {
+				rep.Decisions[k.String()] = s.Decisions[k]
+			}
+		}
+		reports = append(reports, rep)
+		for i := range res.Samples {
+			if len(samples) < 12 {
+				samples = append(samples, map[string]any{"harness": h.fn, "path": res.Samples[i]})
+			}
+		}
+		fmt.Printf("[%s] %s: paths=%d (nontrivial %d) asserts=%d queries=%d/%d cached=%d unknown=%d failures=%d complete=%v wall=%.1fs\n",
+			prop, h.fn, s.Paths, s.PathsNontriv, s.AssertsChecked, s.QFeas, s.QAssert, s.QCached+s.QModelHit, s.QUnknown, len(res.Failures), res.Complete, res.Wall.Seconds())
+
+		// a harness that is not explored to completion, hits an engine error
+		// or never reaches its end is not counted as covered
+		if len(res.EngineErrors) > 0 {
+			broken = true
+			for _, e := range res.EngineErrors {
+				fmt.Printf("ENGINE-ERROR harness=%s %s\n", h.fn, trim(e, 1500))
+			}
+		}
+		if !res.Complete {
+			fmt.Printf("INCOMPLETE harness=%s: %v\n", h.fn, res.BoundExceed)
+			if !spec.allowIncomplete(h.fn) {
+				broken = true
+			}
+		} else if len(res.BoundExceed) > 0 {
+			fmt.Printf("BOUND-EXCEEDED harness=%s: %v\n", h.fn, res.BoundExceed)
+			if !spec.allowIncomplete(h.fn) {
+				broken = true
+			}
+		}
+		for _, u := range res.Unsupported {
+			fmt.Printf("UNSUPPORTED-PATH harness=%s %s\n", h.fn, u)
+		}
+		if len(res.Unsupported) > 0 && !spec.allowUnsupported(h.fn) {
+			broken = true
+		}
+		if res.Reached["end"] == 0 {
+			fmt.Printf("VACUOUS harness=%s: no feasible path reaches the end of the harness\n", h.fn)
+			broken = true
+		}
+
+		// group failures and replay one representative per group
+		groups := map[string][]*interp.Failure{}
+		var order []string
+		for i := range res.Failures {
+			f := &res.Failures[i]
+			var cs []string
+			for _, c := range f.Choices {
+				cs = append(cs, fmt.Sprintf("%s=%d", c.Label, c.Alt))
+			}
+			key := f.Kind + "|" + f.Label + "|" + strings.Join(cs, ",")
+			if _, ok := groups[key]; !ok {
+				order = append(order, key)
+			}
+			groups[key] = append(groups[key], f)
+		}
+		sort.Strings(order)
+		type job struct {
+			key  string
+			f    *interp.Failure
+			rf   *replayFile
+			path string
+			out  replayOutcome
+		}
+		var jobs []*job
+		for _, key := range order {
+			fsg := groups[key]
+			lim := 2
+			if len(fsg) < lim {
+				lim = len(fsg)
+			}
+			for _, f := range fsg[:lim] {
+				nreplay++
+				rf := makeReplay(prop, h.pkg, h.fn, tier, f)
+				path := filepath.Join(replayDir, fmt.Sprintf("%s_%03d.json", h.fn, nreplay))
+				jb, _ := json.MarshalIndent(rf, "", " ")
+				os.WriteFile(path, jb, 0o644)
+				jobs = append(jobs, &job{key: key, f: f, rf: rf, path: path})
+			}
+		}
+		var wg sync.WaitGroup
+		sem := make(chan struct{}, 8)
+		for _, j := range jobs {
+			wg.Add(1)
+			go func(j *job) {
+				defer wg.Done()
+				sem <- struct{}{}
+				j.out = rb.runReplay(j.rf, j.path)
+				<-sem
+			}(j)
+		}
+		wg.Wait()
+		replays += len(jobs)
+		seenKey := map[string]bool{}
+		for _, j := range jobs {
+			if seenKey[j.key] && !j.out.Reproduced {
+				continue
+			}
+			if j.out.Reproduced {
+				if seenKey[j.key+"#ok"] {
+					continue
+				}
+				seenKey[j.key+"#ok"] = true
+			}
+			seenKey[j.key] = true
+			desc := fmt.Sprintf("harness=%s label=%s kind=%s choices=[%s] (%d paths)", h.fn, j.f.Label, j.f.Kind, j.rf.Choices, res.FailureCounts[j.f.Kind+"|"+j.f.Label+"|"+fmt.Sprint(j.f.Choices)])
+			if !j.out.Reproduced {
+				if j.out.Note != "" {
+					mismatchLines = append(mismatchLines, fmt.Sprintf("REPLAY-UNAVAILABLE %s: %s", desc, trim(j.out.Note, 600)))
+				} else {
+					mismatchLines = append(mismatchLines, fmt.Sprintf("ENGINE-MISMATCH %s replay=%s: the counterexample does not reproduce natively (%d runs)\n%s", desc, j.path, j.out.Runs, trim(j.out.Output, 1200)))
+				}
+				continue
+			}
+			var kf *knownFinding
+			for i := range known {
+				if known[i].Status == "known" && known[i].matches(prop, h.fn, j.f) {
+					kf = &known[i]
+					break
+				}
+			}
+			if kf != nil {
+				knownLines = append(knownLines, fmt.Sprintf("KNOWN-FINDING: property=%s %s [%s]", prop, kf.What, desc))
+			} else {
+				violations++
+				violLines = append(violLines, fmt.Sprintf("VIOLATION property=%s replay=%s %s detail=%s", prop, j.path, desc, trim(strings.ReplaceAll(j.f.Detail, "\n", " "), 300)))
+			}
+		}
+	}
+	sort.Strings(knownLines)
+	for _, l := range dedupe(knownLines) {
+		fmt.Println(l)
+	}
+	for _, l := range mismatchLines {
+		fmt.Println(l)
+		broken = true
+	}
+	for _, l := range violLines {
+		fmt.Println(l)
+	}
+
+	// evidence
+	var fnList, inList, asList []string
+	for k := range functions {
+		if strings.Contains(k, "genql") && !strings.Contains(k, "zz_verif") && !strings.Contains(k, ".H_") {
+			fnList = append(fnList, k)
+		}
+	}
+	for k := range intrinsics {
+		inList = append(inList, k)
+	}
+	for k := range assumptions {
+		asList = append(asList, k)
+	}
+	sort.Strings(fnList)
+	sort.Strings(inList)
+	sort.Strings(asList)
+	asList = append(asList, spec.Assumptions...)
+	asList = append(asList,
+		"go/ssa lowering of /repo's current working tree and the forked x/tools interpreter's instruction semantics",
+		"intrinsic models of the listed stdlib functions (concrete arguments call the real function)",
+		"z3 4.8.12 verdicts (unknown/timeouts are reported as inconclusive, never as success)",
+		"counterexamples are only reported after they reproduce against the natively compiled library")
+	var decTotal int64
+	decMap := map[string]int64{}
+	for k := interp.DecKind(0); k < interp.DkNumKinds; k++ {
+		decTotal += tot.Decisions[k]
+		if tot.Decisions[k] > 0 {
+			decMap[k.String()] = tot.Decisions[k]
+		}
+	}
+	if len(samples) == 0 {
+		samples = append(samples, "no path completed")
+	}
+	ev := map[string]any{
+		"property_id": prop,
+		"tier":        *tierS,
+		"seed":        seed,
+		"level":       "model_checking",
+		"wall_s":      time.Since(t0).Seconds(),
+		"violations":  violations,
+		"assumptions": asList,
+		"coverage": map[string]any{
+			"evaluations":         tot.Paths,
+			"distinct_nontrivial": tot.PathsNontriv,
+			"rule": "one evaluation = one complete symbolic execution path of a harness over the real SSA of /repo (each path stands for all inputs satisfying its path condition); " +
+				"non-trivial = the path condition contains at least one solver-decided conjunct; paths are distinct by construction (distinct decision vectors)",
+			"states":                        tot.Paths + decTotal,
+			"transitions":                   decTotal + tot.Paths,
+			"traces_validated_against_impl": replays,
+			"samples":                       samples,
+			"exhaustive":                    false,
+			"technique":                     "bounded symbolic execution of go/ssa with SMT (z3) path feasibility and assertion discharge",
+			"harnesses":                     reports,
+			"functions_encoded":             fnList,
+			"intrinsics_used":               inList,
+			"bounds":                        spec.Bounds[tier],
+			"outside_the_claim":             spec.Outside,
+			"queries": map[string]any{"feasibility": tot.QFeas, "assertion": tot.QAssert, "answered_from_cache": tot.QCached, "answered_by_cached_model": tot.QModelHit, "unknown": tot.QUnknown},
+			"assertions_discharged":         tot.AssertsChecked,
+			"solver":                        solverFromEnv().String(),
+			"solver_s":                      solverS,
+			"decisions_by_kind":             decMap,
+			"known_findings":                dedupe(knownLines),
+			"engine_mismatch":               mismatchLines,
+			"load_s":                        m.LoadTime.Seconds(),
+			"ssa_build_s":                   m.BuildTime.Seconds(),
+		},
+	}
+	evDir := filepath.Join(verifRoot(), "evidence")
+	os.MkdirAll(evDir, 0o755)
+	eb, _ := json.MarshalIndent(ev, "", " ")
+	if err := os.WriteFile(filepath.Join(evDir, prop+".json"), eb, 0o644); err != nil {
+		fmt.Fprintln(os.Stderr, err)
+		return 3
+	}
+	fmt.Printf("[%s] tier=%s paths=%d assertions=%d solver=%.1fs wall=%.1fs known=%d violations=%d\n", prop, *tierS, tot.Paths, tot.AssertsChecked, solverS, time.Since(t0).Seconds(), len(dedupe(knownLines)), violations)
+	if violations > 0 {
+		return 1
+	}
+	if broken {
+		fmt.Printf("CHECK-INCONCLUSIVE property=%s: see the lines above (engine mismatch, incomplete exploration, unsupported path or vacuous harness)\n", prop)
+		return 3
+	}
+	return 0
+}
+
+type hrun struct{ fn, pkg string }
+
+func dedupe(in []string) []string {
+	seen := map[string]bool{}
+	var out []string
+	for _, s := range in {
+		if !seen[s] {
+			seen[s] = true
+			out = append(out, s)
+		}
+	}
+	return out
+}
+
+func replayCmd(args []string) int {
+	if len(args) < 1 {
+		fmt.Fprintln(os.Stderr, "usage: gosym replay <file>")
+		return 2
+	}
+	b, err := os.ReadFile(args[0])
+	if err != nil {
+		fmt.Fprintln(os.Stderr, err)
+		return 2
+	}
+	var rf replayFile
+	if err := json.Unmarshal(b, &rf); err != nil {
+		fmt.Fprintln(os.Stderr, err)
+		return 2
+	}
+	m := loadMachine()
+	rb, err := newReplayBuilder(m)
+	if err != nil {
+		fmt.Fprintln(os.Stderr, err)
+		return 3
+	}
+	defer rb.close()
+	abs, _ := filepath.Abs(args[0])
+	out := rb.runReplay(&rf, abs)
+	fmt.Println(out.Output)
+	if out.Note != "" {
+		fmt.Println(out.Note)
+	}
+	if out.Reproduced {
+		fmt.Printf("VIOLATION property=%s replay=%s harness=%s label=%s kind=%s (reproduced natively)\n", rf.Property, abs, rf.Harness, rf.Label, rf.Kind)
+		return 1
+	}
+	fmt.Println("not reproduced")
+	return 0
+}
